@@ -29,7 +29,7 @@ impl Scenario for C10 {
             real: vec!["server TcpTransport reader loop / process_chunk / pending_chunks", "TcpCodec (FramedRead) with the server's decoding options", "MessageChunk::decode"],
             stubbed: vec!["TCP socket"],
             assumptions: vec!["security policy None"],
-            fault_kinds: vec!["exceed_chunk_count", "exceed_message_size", "oversized_frame_header", "abort_chunk"],
+            fault_kinds: vec!["exceed_chunk_count", "exceed_message_size", "oversized_frame_header", "abort_chunk", "final_chunk_exceeds_limit"],
         }
     }
     fn runs(&self, tier: Tier) -> u64 {
@@ -54,7 +54,23 @@ impl Scenario for C10 {
                 4 => i32::MAX as u64,
                 _ => max_msg as u64 - 1, // legitimate: must NOT be refused
             };
-            steps.push(json!({"op": "header", "declared": declared, "extra": rng.urange(1, 64), "kind": *rng.pick(&["MSGF", "MSGC", "OPNF"])}));
+            steps.push(json!({"op": "header", "declared": declared, "extra": rng.urange(1, 64), "kind": *rng.pick(&["MSGF", "MSGC", "OPNF", "HELF", "ERRF", "ACKF", "XYZF"])}));
+        } else if rng.chance(0.2) {
+            // exactly at the limit, then the final chunk that goes over it
+            if rng.chance(0.5) {
+                for _ in 0..max_chunks {
+                    steps.push(json!({"op": "chunk", "fin": "C", "size": 100, "seq": "next"}));
+                }
+            } else {
+                let per = 8000usize;
+                for _ in 0..((max_msg / (per + 24)).min(max_chunks.saturating_sub(1))) {
+                    steps.push(json!({"op": "chunk", "fin": "C", "size": per, "seq": "next"}));
+                }
+            }
+            steps.push(json!({"op": "chunk", "fin": "F", "size": *rng.pick(&[10usize, 8000, 60_000]), "seq": "next"}));
+        } else if rng.chance(0.15) {
+            // a well-formed request that needs one chunk more than the limit allows
+            steps.push(json!({"op": "valid_over_count", "rseed": rng.next_u64() >> 12}));
         } else {
             let n = if tier == Tier::Thorough { rng.urange(1, 60) } else { rng.urange(1, 30) };
             for _ in 0..n {
@@ -131,6 +147,32 @@ async fn run(plan: &Value, ctx: &mut Ctx) {
                 }
                 break;
             }
+            "valid_over_count" => {
+                let per_chunk = 8196 - 24 - 4; // policy None: body bytes per 8196-byte chunk
+                let target = max_chunks * per_chunk + 200;
+                if target + 24 * (max_chunks + 1) > max_msg {
+                    ctx.log("valid_over_count>skipped", "");
+                    break;
+                }
+                ctx.fault("final_chunk_exceeds_limit");
+                let mut rng = Rng::new(s["rseed"].as_u64().unwrap_or(1));
+                let req: opcua::core::supported_message::SupportedMessage = crate::wire::sized_read_request(1, target, &mut rng).into();
+                c.chunk_size = 8196;
+                let Ok((id, chunks)) = c.encode_message(&req) else { break };
+                let n = chunks.len();
+                for ch in chunks.iter() {
+                    if !c.send_bytes(ch).await {
+                        break;
+                    }
+                }
+                let r = c.recv_for(id, Duration::from_millis(200)).await;
+                let answered = matches!(r, Recv::Msg(_, _));
+                ctx.log(&format!("valid_over_count({} chunks)>{}", n, l2::recv_kind(&r)), "");
+                if n > max_chunks && answered {
+                    ctx.violate("C10", "limit-exceeding-final-chunk-accepted", "", format!("a well-formed request of {} chunks was buffered, decoded and answered ({}) although the negotiated maximum chunk count is {}", n, l2::recv_kind(&r), max_chunks));
+                }
+                break;
+            }
             "chunk" => {
                 let fin = s["fin"].as_str().unwrap_or("C");
                 let size = s["size"].as_u64().unwrap_or(10) as usize;
@@ -163,6 +205,11 @@ async fn run(plan: &Value, ctx: &mut Ctx) {
                 if fin == "A" {
                     ctx.fault("abort_chunk");
                 }
+                // the final chunk counts too: with it the message would exceed a limit
+                let final_exceeds = fin == "F" && (model_count + 1 > max_chunks || model_bytes + wire_len > max_msg);
+                if final_exceeds {
+                    ctx.fault("final_chunk_exceeds_limit");
+                }
                 if !c.send_bytes(&chunk.data).await {
                     break;
                 }
@@ -181,6 +228,10 @@ async fn run(plan: &Value, ctx: &mut Ctx) {
                 }
                 if bytes > max_msg {
                     ctx.violate("C10", "pending-bytes-exceed-limit", "", format!("{} bytes are buffered for one incomplete message, the maximum message size is {}", bytes, max_msg));
+                    break;
+                }
+                if final_exceeds && !closed {
+                    ctx.violate("C10", "limit-exceeding-final-chunk-accepted", "", format!("a final chunk that brings the message to {} chunks / {} bytes (limits {} chunks / {} bytes) was accepted: no error, connection still open", model_count + 1, model_bytes + wire_len, max_chunks, max_msg));
                     break;
                 }
                 if closed {
